@@ -649,7 +649,8 @@ def rule_objective_and_distances(repo, rep):
       top_ = pm_[top_]
     if top_ in f.node.body:
       un = astutil.unfold(un, f.node.body, top_,
-                          stop=('w', 'dist_diff', 'iter', 'best_obj'))
+                          stop=('w', 'dist_diff', 'iter', 'best_obj') +
+                          tuple(f.params()))
     txt = ast.unparse(un)
     margins = ('1 + np.matmul(dist_diff, w.T)', '1 + dist_diff.dot(w.T)',
                'np.matmul(dist_diff, w.T) + 1', '1 + dist_diff @ w.T',
